@@ -40,6 +40,20 @@ def run(chk):
             if size >= len(s):
                 p = r.choice([0, size - len(s), r.below(size - len(s) + 1)])
                 buf[p:p + len(s)] = s
+        if i % 10 == 3:
+            # aimed at the fixed-offset optimisation: a string used only through `at <folded constant expression>`, present exactly there
+            # (or one byte off), so that the constant the compiler folds and the value the VM computes must agree
+            g = condgen.Gen(r.fork(), 0, 3)
+            e = g.const_small()
+            v = condgen.const_value(e)
+            t = ("at", 0, e)
+            if r.chance(1, 3):
+                t = (r.choice(["and", "or"]), t, ("cmp", "eq", ("fs",), ("lit", r.below(3))))
+            trees, names = [t], ["r0"]
+            src = "rule r0 { strings: %s condition: %s }\n" % (decl, condgen.Printer(names).raw(t))
+            p0 = max(0, v + r.choice([0, 0, 0, 1, -1]))
+            buf = bytearray(r.choice(b" .") for _ in range(p0 + len(strs[0]) + r.below(4)))
+            buf[p0:p0 + len(strs[0])] = strs[0]
         buf = bytes(buf)
         cmds = ["newcompiler"] + ["defi ext%d %d" % (j, 0) for j in range(3)] + ["add " + hx(src.encode()), "getrules", "scanner 0"] + \
                ["sdefi ext%d %d" % (j, exts[j]) for j in range(3)] + ["scan " + hx(buf)]
